@@ -211,6 +211,76 @@ class Engine:
         self.decided[tid] = (d, term)
         return d
 
+    def choose(self, terms):
+        """Decision among mutually exclusive options (z3 Bools): returns the index of the option
+        that holds on this path, or -1 when none does.  Model-guided (one feasibility query per
+        call) and recorded as a value decision so that re-execution is deterministic."""
+        terms = [z3.simplify(t) for t in terms]
+        for j, t in enumerate(terms):
+            if z3.is_true(t):
+                return j
+        if all(z3.is_false(t) for t in terms):
+            return -1
+        ckey = tuple(t.get_id() for t in terms)
+        hit = self.decided.get(ckey)
+        if hit is not None:
+            return hit[0]
+        self.decided[ckey] = None  # placeholder replaced below
+        try:
+            k = self._choose(terms)
+        except BaseException:
+            self.decided.pop(ckey, None)
+            raise
+        self.decided[ckey] = (k, terms)
+        return k
+
+    def _choose(self, terms):
+        for t in terms:
+            for v in vars_of(t):
+                self.tainted.add(v)
+        none = z3.And(*[z3.Not(t) for t in terms]) if terms else z3.BoolVal(True)
+        h = (z3.Or(*terms) if terms else z3.BoolVal(False)).hash()
+        i = len(self.decisions)
+
+        def cond(k):
+            return terms[k] if k >= 0 else none
+
+        excluded = []
+        if i < len(self.prefix):
+            d = self.prefix[i]
+            if not isinstance(d, tuple) or d[0] not in ("opt", "optx"):
+                raise EngineError("non-deterministic re-execution (option decision expected) at %d" % i)
+            if d[0] == "opt":
+                c = cond(d[1])
+                self._record(d, z3.BoolVal(True) if False else _H(h))
+                self.solver.add(c)
+                self.pc.append(c)
+                self.model = None
+                return d[1]
+            excluded = list(d[1])
+            for j in excluded:
+                c = z3.Not(cond(j))
+                self.solver.add(c)
+                self.pc.append(c)
+            self.model = None
+        m = self.get_model()
+        k = -1
+        for j, t in enumerate(terms):
+            if z3.is_true(m.eval(t, model_completion=True)):
+                k = j
+                break
+        c = cond(k)
+        r = self.check(z3.Not(c))
+        if r == z3.unknown:
+            raise EngineError("solver unknown at option decision")
+        if r == z3.sat:
+            self.worklist.append((self.decisions + [("optx", excluded + [k])], self.hashes + [h]))
+        self._record(("opt", k), _H(h))
+        self.solver.add(c)
+        self.pc.append(c)
+        self.model = None if r == z3.sat else self.model
+        return k
+
     # ------------------------------------------------------------------ exploration
     def explore(self, fn, on_path, max_paths=None, deadline=None):
         """DFS over decision prefixes; fn() is re-executed per path.
@@ -247,6 +317,16 @@ class Engine:
         if r == z3.sat:
             return False
         raise EngineError("solver unknown on overflow guards")
+
+
+class _H:
+    """Carries a precomputed structural hash for Engine._record."""
+
+    def __init__(self, h):
+        self.h = h
+
+    def hash(self):
+        return self.h
 
 
 _vars_cache = {}
